@@ -256,6 +256,11 @@ def bitfinexSubscribed (m : IMap) (chan mkt : Str) (chanId : Nat) : IMap :=
   | some key => (m.remove (subId chan mkt)).insert (Nat.toDigits 10 chanId) key
   | none => m
 
+/-- The validator's loop over the venue's `subscribed` confirmations `(symbol, chanId)` on the
+`trades` channel, in arrival order (`bitfinex/validator.rs:60-137`). -/
+def bitfinexConfirm (m : IMap) (confs : List (Str × Nat)) : IMap :=
+  confs.foldl (fun m c => bitfinexSubscribed m "trades".toList c.1 c.2) m
+
 /-! ## Payloads -/
 
 inductive Side | buy | sell
